@@ -11,6 +11,7 @@
  */
 #include "tokenizer/tokenize_cleanup.h"
 
+#include "char_table.h"
 #include "chunk.h"
 #include "keywords.h"
 #include "log_rules.h"
@@ -695,6 +696,14 @@ void tokenize_cleanup()
                // Change tmp into a type so that space_needed() works right
                make_type(tmp);
                size_t num_sp = space_needed(tmp2, tmp);
+
+               if (  num_sp == 0
+                  && CharTable::IsKw2(tmp2->GetStr()[tmp2->Len() - 1])
+                  && CharTable::IsKw1(tmp->GetStr()[0]))
+               {
+                  // two words stay two words whatever the spacing options say ('const char')
+                  num_sp = 1;
+               }
 
                while (num_sp-- > 0)
                {
